@@ -43,20 +43,23 @@ type c17Op struct {
 }
 
 type c17Script struct {
-	Asm       bool           `json:"asm"`
-	AEADs     []aeadSpec     `json:"aeads"`
-	Msgs      []c10Buf       `json:"msgs"`
-	AADs      []c10Buf       `json:"aads"`
-	NKeys     int            `json:"nkeys"`
-	KeySeed   uint64         `json:"key_seed"`
-	NSealed   int            `json:"nsealed"`
-	Tasks     [][]c17Op      `json:"tasks"`
-	First     int            `json:"first"`
-	SchedSeed uint64         `json:"sched_seed"`
-	Den       int            `json:"den"`
-	Explicit  bool           `json:"explicit,omitempty"`
-	Switches  []sched.Switch `json:"switches,omitempty"`
-	Ends      []int          `json:"ends,omitempty"`
+	Asm        bool           `json:"asm"`
+	AEADs      []aeadSpec     `json:"aeads"`
+	Msgs       []c10Buf       `json:"msgs"`
+	AADs       []c10Buf       `json:"aads"`
+	NKeys      int            `json:"nkeys"`
+	KeySeed    uint64         `json:"key_seed"`
+	NSealed    int            `json:"nsealed"`
+	Tasks      [][]c17Op      `json:"tasks"`
+	First      int            `json:"first"`
+	SchedSeed  uint64         `json:"sched_seed"`
+	Weights    []int          `json:"weights,omitempty"`     // per task: how often the seeded scheduler picks it, relative to the others (default 1)
+	StartBurst int            `json:"start_burst,omitempty"` // opening phase: every task in turn runs for this many yield points, so all are in mid-call before ordinary scheduling starts
+	OwnThreads bool           `json:"own_threads,omitempty"` // every task runs on an OS thread created for it (seam S7)
+	Den        int            `json:"den"`
+	Explicit   bool           `json:"explicit,omitempty"`
+	Switches   []sched.Switch `json:"switches,omitempty"`
+	Ends       []int          `json:"ends,omitempty"`
 }
 
 type c17 struct{}
@@ -86,14 +89,14 @@ func (c17) Meta() core.Meta {
 	}
 	return core.Meta{
 		Level: "exploration",
-		Rule: gran + ". seeded runs: 2-6 tasks x <=6 operations each (" + strings.Join(c17Kinds, ", ") + ") on 1-2 shared AEADs/Blocks, 1-2 shared SM2 key pairs and shared read-only buffers (same key slice to concurrent NewCipher, same nonce/aad/plaintext to concurrent Seals, same ciphertext buffer to concurrent Opens, same public key and signature to concurrent Verifies); independent hash values per task; both implementation paths; under L2 one run in 40 is a crowd: 66-110 tasks with one or two SM2 calls each on 54-110 distinct key pairs, switching every 16-256 yield points, so that dozens of calls over dozens of keys are in flight at once. " +
+		Rule: gran + ". seeded runs: 2-6 tasks x <=6 operations each (" + strings.Join(c17Kinds, ", ") + ") on 1-2 shared AEADs/Blocks, 1-2 shared SM2 key pairs and shared read-only buffers (same key slice to concurrent NewCipher, same nonce/aad/plaintext to concurrent Seals, same ciphertext buffer to concurrent Opens, same public key and signature to concurrent Verifies); independent hash values per task; both implementation paths; in one run in four every task is an OS thread of its own; under L2 one run in 60 is a crowd: 66-110 tasks with one or two SM2 calls each on 54-110 distinct key pairs, switching every 16-256 yield points, so that dozens of calls over dozens of keys are in flight at once; in half of the crowds two to four tasks make 6-12 calls each and are favoured 20-80 fold by the scheduler, after an opening phase in which every task in turn is run a few dozen yield points into its first call: calls keep starting and finishing while all the others sit in the middle of theirs. " +
 			"non-trivial = at least one context switch happened while another task still had work; distinct = distinct (path, per-task op-kind sequences, switch-count bucket); distinct_interleavings = distinct recorded schedules (switch positions and targets)",
 		Components: map[string]string{"sm4 Block/AEAD (amd64 assembly and portable)": "real", "sm2 Sign/Verify/DerivePublic/GenerateKey": "real", "sm3": "real", "crypto/cipher glue": "real",
 			"caller threads": "stub (cooperative tasks under the seeded scheduler; one runs at a time)", "randomness sources": "stub (per-call simulated devices)", "arm64 assembly": "not run",
 			"oracle": "serial pre-pass of the same calls on private copies and twin objects; snapshots of shared buffers; under L2 additionally ThreadSanitizer reports"},
 		Assumptions: []string{"tasks are scheduled one at a time (sequentially consistent interleavings only; no weak-memory effects)", "L1/L2 cannot split the assembly routines (that is L3's job)",
 			"shared objects are constructed before the tasks start"},
-		FaultKinds: []string{"context-switch", "shared-ciphertext-opened-concurrently", "shared-key-slice", "shared-aead", "shared-sm2-key", "crowd"},
+		FaultKinds: []string{"context-switch", "shared-ciphertext-opened-concurrently", "shared-key-slice", "shared-aead", "shared-sm2-key", "crowd", "thread-per-task"},
 		ProbeNames: []string{"switches>=1", "switches>=8", "tasks>=4", "same-ct-opened-by>=2-tasks", "same-aead-used-by>=2-tasks", "same-sm2key-used-by>=2-tasks"},
 		StepUnit:   "scheduler yield points visited",
 	}
@@ -147,20 +150,38 @@ func (c17) Generate(idx int, r *core.Rand, tier string) core.Script {
 	// each, nearly every task on a key of its own, so that dozens of calls are in flight at
 	// once over dozens of distinct keys - the shape that exhausts a fixed pool of scratch
 	// slots or the capacity of a per-key cache in the middle of somebody's call
-	crowd := L2Enabled && w.Chance(1, 40)
+	crowd := L2Enabled && w.Chance(1, 60)
 	if crowd {
 		nt = w.Range(66, 110)
 		s.NKeys = w.Range(nt-12, nt)
 		focus, long = -1, false
 	}
 	crowdKinds := []string{"SignHashed", "SignHashed", "SignHashed", "VerifyHashed", "VerifyHashed", "VerifyHashed", "Verify", "Verify", "DerivePublic", "GenerateKey", "SignFail"}
-	if crowd && w.Chance(1, 2) { // single-kind crowd
+	if crowd && w.Chance(2, 3) { // single-kind crowd
 		crowdKinds = []string{crowdKinds[w.Intn(len(crowdKinds)-3)]}
+	}
+	churn := 0
+	if crowd && w.Chance(2, 3) {
+		churn = w.Range(2, 4)
+		s.StartBurst = w.PickInt(400, 1500, 5000, w.Range(300, 6000))
+		s.Weights = make([]int, nt)
+		for t := range s.Weights {
+			s.Weights[t] = 1
+			if t >= nt-churn {
+				s.Weights[t] = w.PickInt(20, 40, 80)
+			}
+		}
 	}
 	for t := 0; t < nt; t++ {
 		var ops []c17Op
 		if crowd {
-			for i := w.PickInt(1, 1, 1, 2); i > 0; i-- {
+			nops := w.PickInt(1, 1, 1, 2)
+			if churn > 0 && t >= nt-churn {
+				// a churner: many calls in quick succession (the scheduler favours it) while the
+				// holders sit in the middle of their single call
+				nops = w.Range(6, 12)
+			}
+			for i := nops; i > 0; i-- {
 				op := c17Op{Kind: crowdKinds[w.Intn(len(crowdKinds))], K: t % s.NKeys, Seed: w.Uint64(), Dst: dstSpec{Mode: "nil"}}
 				if w.Chance(1, 10) {
 					op.K = w.Intn(s.NKeys)
@@ -206,6 +227,7 @@ func (c17) Generate(idx int, r *core.Rand, tier string) core.Script {
 		s.Tasks = append(s.Tasks, ops)
 	}
 	s.First = sc.Intn(nt)
+	s.OwnThreads = !crowd && r.Split("thread").Chance(1, 4)
 	if L2Enabled {
 		s.Den = sc.PickInt(16, 64, 64, 256, 256, 1024, 2048)
 		if focus >= 0 {
@@ -472,6 +494,10 @@ func (c17) Execute(sc core.Script, keep bool) *core.Result {
 	} else {
 		sch = sched.NewSeeded(s.SchedSeed, s.Den)
 	}
+	sch.PinTasks, sch.Weights, sch.StartBurst = s.OwnThreads, s.Weights, s.StartBurst
+	if s.OwnThreads {
+		res.Faults["thread-per-task"]++
+	}
 	got := make([][]string, len(s.Tasks))
 	events := make([][]c17Event, len(s.Tasks))
 	damaged := make([]string, len(s.Tasks)) // first damaged shared buffer seen by each task (own slot only)
@@ -667,6 +693,7 @@ func c17Explicit(s *c17Script) *c17Script {
 	core.Catch(func() {
 		shared := c17Build(&c, asm)
 		sch := sched.NewSeeded(c.SchedSeed, c.Den)
+		sch.PinTasks, sch.Weights, sch.StartBurst = c.OwnThreads, c.Weights, c.StartBurst
 		var fns []func()
 		for t := range c.Tasks {
 			t := t
